@@ -215,13 +215,13 @@ class FilesLoop:
 
     def havoc(self, interp, env, k, phase):
         P, g = self.P, self.ghost
-        g.blocks = Int('blocks_done_h')
+        g.blocks = Int('blocks_done_h' + getattr(self, 'sfx', ''))
         g.files = k
         hd = env.get('header_dict')
-        hd['PKTIDX'] = Int('pktidx_h')
+        hd['PKTIDX'] = Int('pktidx_h' + getattr(self, 'sfx', ''))
         src = self.be.fields['antenna_source']
-        tnew = Real('clock_h')
-        so = Bool('start_obs_h')
+        tnew = Real('clock_h' + getattr(self, 'sfx', ''))
+        so = Bool('start_obs_h' + getattr(self, 'sfx', ''))
         for st in [src] + list(src.fields['streams']):
             st.fields['t_start'] = tnew
             st.fields['start_obs'] = so
@@ -258,16 +258,16 @@ class BlocksLoop:
         if self.base is None:
             self.base = g.blocks                 # blocks done when this file was opened
             self.f = env.get('f')
-        g.blocks = Int('blocks_done_hj')
+        g.blocks = Int('blocks_done_hj' + getattr(self, 'sfx', ''))
         hd = env.get('header_dict')
-        hd['PKTIDX'] = Int('pktidx_hj')
+        hd['PKTIDX'] = Int('pktidx_hj' + getattr(self, 'sfx', ''))
         f = env.get('f')
-        f.nbytes = Int('nbytes_hj')
-        f.n_headers = Int('nhdr_hj')
-        f.n_data = Int('ndata_hj')
+        f.nbytes = Int('nbytes_hj' + getattr(self, 'sfx', ''))
+        f.n_headers = Int('nhdr_hj' + getattr(self, 'sfx', ''))
+        f.n_data = Int('ndata_hj' + getattr(self, 'sfx', ''))
         f.log = []
         src = self.be.fields['antenna_source']
-        tnew, so = Real('clock_hj'), Bool('start_obs_hj')
+        tnew, so = Real('clock_hj' + getattr(self, 'sfx', '')), Bool('start_obs_hj' + getattr(self, 'sfx', ''))
         for st in [src] + list(src.fields['streams']):
             st.fields['t_start'] = tnew
             st.fields['start_obs'] = so
